@@ -13,7 +13,7 @@ func init() {
 		ID: "C16", Level: "exploration",
 		Rule: "twelve case families over one index space (families five to eight appended by the audit of the workload's dimensions, nine and ten in the fourth round, the last two in the fifth; earlier families keep their case numbers). names: (measurement, related measurement) pairs through GCETcbObjectName (SNP, TDX) and GCETcbURL against the monitor's own name model and inverse; " +
 			"events: a real snapshot endorse run of a generated image, its <image>.evts.pb decoded by an independent SP800-155 decoder and by the repository's, then fed through a generated boot event log into extract.Endorsement; " +
-			"precedence: one point of the product {event-log shape} x {manufacturer filter} x {quote format x entry} x {provider} x {getter} x {forced fetch}, its event log kept on a drawn medium (regular file, named pipe, symbolic link to either), run through extract.Endorsement (twice) and, for a third, through the extract command; " +
+			"precedence: one point of the product {event-log shape} x {manufacturer filter} x {quote format x entry} x {provider} x {getter} x {forced fetch}, a third of the logs also carrying decoy events (another event type than EV_NO_ACTION whose data is a well-formed SP800-155 Event3 with a raw or URI locator, which is no reference-manifest event), its event log kept on a drawn medium (regular file, named pipe, symbolic link to either), run through extract.Endorsement (twice) and, for a third, through the extract command; " +
 			"the checker works on the recorded URL list and the returned bytes; confine: (GUID, UCS-2 name) through EfiVarFSReader.ReadVariable and through an event-log variable locator against a scratch efivarfs tree with symlinks and outside canaries; " +
 			"sequences: 3-6 calls of extract.Endorsement that use ONE event-log path, efivarfs root and set of variable names whose contents change between the calls (one source changed per step: same again, forced fetch toggled, variables rewritten / removed / created under their names, log rewritten, quote refilled, provider changed, getter changed, filter changed, all new), through one kept Options / variable reader / getter / provider value of which only the changed fields are re-assigned (quote buffer refilled in place) or through fresh values per call, returned slices edited by the caller or kept and compared after the later calls; " +
 			"concurrent: 4-8 independent precedence cases released together on as many goroutines (4 rounds each), beside a tight loop over GCETcbObjectName/GCETcbURL per goroutine and reads through one shared EfiVarFSReader, every call judged afterwards by the sequential rules; " +
